@@ -331,7 +331,10 @@ def real_server_followup(fault, step):
 
 KINDS = [("upload", (1, 4, 5, 7, 8, 14, 15)), ("upload-nosize", (5, 14)), ("download", (1, 4, 5, 7, 8, 14, 15)),
          ("download-nosize", (5, 14)), ("block-upload", (5, 15, 50)), ("block-download", (5, 15, 50))]
-KINDS_T = [("upload", (0, 2, 3, 6, 13, 21, 22, 28)), ("download", (0, 2, 3, 6, 13, 21, 22, 28))]
+KINDS_T = [("upload", (0, 2, 3, 6, 9, 10, 11, 12, 13, 16, 20, 21, 22, 28, 29, 35, 36)),
+           ("download", (0, 2, 3, 6, 9, 10, 11, 12, 13, 16, 20, 21, 22, 28, 29, 35, 36)),
+           ("upload-nosize", (0, 1, 4, 7, 8, 15, 21, 22)), ("download-nosize", (0, 1, 4, 7, 8, 15, 21, 22)),
+           ("block-upload", (1, 7, 8, 14, 21, 22, 49, 100)), ("block-download", (1, 7, 8, 14, 21, 22, 49, 100))]
 
 
 def jobs(tier):
@@ -372,7 +375,7 @@ META = dict(
                       "upload/download (5,15,50 bytes, block size 3 for download); every step x {dropped, abort(code sym), "
                       "toggle flipped, wrong scs (sym), wrong multiplexer (sym), duplicated, stale frame between request "
                       "and response (sym), late response after a time-out}; stale frame before the request (any 8 bytes)",
-                thorough="adds lengths 0,2,3,6,13,21,22,28"),
+                thorough="adds 17 more lengths for upload/download, 8 more for the size-not-indicated and block variants (block transfers up to 100 bytes)"),
     outside_bounds=["more than one disturbance per transfer", "stale frames identical in form to the awaited response",
                     "the time-out abort frame in block transfers (not promised by the block streams; see findings)",
                     "OS-thread timing"],
